@@ -427,9 +427,15 @@ fn list_inhabited(
                 }
             }
 
+            // A longer list can escape this negative through one more element that is in the
+            // rest type but not in the negative's rest type; the remaining negatives still apply to it.
             let diff = items.diff(&nt.items)?;
             if let IsEmptyStatus::NotEmpty = diff.is_empty_status(builder)? {
-                return Ok(ListInhabited::Yes);
+                let mut s = prefix_items.clone();
+                s.push(diff);
+                if let ListInhabited::Yes = list_inhabited(&mut s, items, &neg.next, builder)? {
+                    return Ok(ListInhabited::Yes);
+                }
             }
 
             // This is correct for length 0, because we know that the length of the
